@@ -592,6 +592,21 @@ where
                 let _ = src.next()?; // consume the null scalar document
                 continue;
             }
+            // A container end where a document should start: the previous value stopped inside
+            // its document (shape mismatch). Never hand it to the target type again: unit/Option
+            // targets accept it without consuming it, and the loop would never end.
+            Some(Ev::SeqEnd { location }) => {
+                let err = Error::UnexpectedSequenceEnd {
+                    location: *location,
+                };
+                return Err(maybe_with_snippet(err, input, with_snippet, crop_radius));
+            }
+            Some(Ev::MapEnd { location }) => {
+                let err = Error::UnexpectedMappingEnd {
+                    location: *location,
+                };
+                return Err(maybe_with_snippet(err, input, with_snippet, crop_radius));
+            }
             Some(_) => {
                 let mut recorder = crate::path_map::PathRecorder::new();
                 let value_res = crate::anchor_store::with_document_scope(|| {
@@ -831,6 +846,28 @@ where
                         }
                         continue;
                     }
+                    // A container end where a document should start: the previous value stopped
+                    // inside its document (shape mismatch). Never hand it to the target type again:
+                    // unit/Option targets accept it without consuming it, and `next` would yield
+                    // items forever.
+                    Ok(Some(Ev::SeqEnd { location })) => {
+                        let err = Error::UnexpectedSequenceEnd {
+                            location: *location,
+                        };
+                        if !self.src.skip_to_next_document() {
+                            self.finished = true;
+                        }
+                        return Some(Err(err));
+                    }
+                    Ok(Some(Ev::MapEnd { location })) => {
+                        let err = Error::UnexpectedMappingEnd {
+                            location: *location,
+                        };
+                        if !self.src.skip_to_next_document() {
+                            self.finished = true;
+                        }
+                        return Some(Err(err));
+                    }
                     Ok(Some(_)) => {
                         let mut recorder = crate::path_map::PathRecorder::new();
                         let value_res = crate::anchor_store::with_document_scope(|| {
@@ -981,6 +1018,21 @@ where
             }) if scalar_is_nullish(s, style) => {
                 let _ = src.next()?; // consume the null scalar document
                 continue;
+            }
+            // A container end where a document should start: the previous value stopped inside
+            // its document (shape mismatch). Never hand it to the target type again: unit/Option
+            // targets accept it without consuming it, and the loop would never end.
+            Some(Ev::SeqEnd { location }) => {
+                let err = Error::UnexpectedSequenceEnd {
+                    location: *location,
+                };
+                return Err(maybe_with_snippet(err, input, with_snippet, crop_radius));
+            }
+            Some(Ev::MapEnd { location }) => {
+                let err = Error::UnexpectedMappingEnd {
+                    location: *location,
+                };
+                return Err(maybe_with_snippet(err, input, with_snippet, crop_radius));
             }
             Some(_) => {
                 let mut recorder = crate::path_map::PathRecorder::new();
@@ -1211,6 +1263,28 @@ where
                         }
                         continue;
                     }
+                    // A container end where a document should start: the previous value stopped
+                    // inside its document (shape mismatch). Never hand it to the target type again:
+                    // unit/Option targets accept it without consuming it, and `next` would yield
+                    // items forever.
+                    Ok(Some(Ev::SeqEnd { location })) => {
+                        let err = Error::UnexpectedSequenceEnd {
+                            location: *location,
+                        };
+                        if !self.src.skip_to_next_document() {
+                            self.finished = true;
+                        }
+                        return Some(Err(err));
+                    }
+                    Ok(Some(Ev::MapEnd { location })) => {
+                        let err = Error::UnexpectedMappingEnd {
+                            location: *location,
+                        };
+                        if !self.src.skip_to_next_document() {
+                            self.finished = true;
+                        }
+                        return Some(Err(err));
+                    }
                     Ok(Some(_)) => {
                         let mut recorder = crate::path_map::PathRecorder::new();
                         let value_res = crate::anchor_store::with_document_scope(|| {
@@ -1396,6 +1470,21 @@ pub fn from_multiple_with_options<T: DeserializeOwned>(
                 let _ = src.next()?; // consume the null scalar document
                 // Do not push anything for this document; move to the next one.
                 continue;
+            }
+            // A container end where a document should start: the previous value stopped inside
+            // its document (shape mismatch). Never hand it to the target type again: unit/Option
+            // targets accept it without consuming it, and the loop would never end.
+            Some(Ev::SeqEnd { location }) => {
+                let err = Error::UnexpectedSequenceEnd {
+                    location: *location,
+                };
+                return Err(maybe_with_snippet(err, input, with_snippet, crop_radius));
+            }
+            Some(Ev::MapEnd { location }) => {
+                let err = Error::UnexpectedMappingEnd {
+                    location: *location,
+                };
+                return Err(maybe_with_snippet(err, input, with_snippet, crop_radius));
             }
             Some(_) => {
                 let value_res = crate::anchor_store::with_document_scope(|| {
@@ -1944,6 +2033,28 @@ where
                             return Some(Err(e));
                         }
                         continue;
+                    }
+                    // A container end where a document should start: the previous value stopped
+                    // inside its document (shape mismatch). Never hand it to the target type again:
+                    // unit/Option targets accept it without consuming it, and `next` would yield
+                    // items forever.
+                    Ok(Some(Ev::SeqEnd { location })) => {
+                        let err = Error::UnexpectedSequenceEnd {
+                            location: *location,
+                        };
+                        if !self.src.skip_to_next_document() {
+                            self.finished = true;
+                        }
+                        return Some(Err(err));
+                    }
+                    Ok(Some(Ev::MapEnd { location })) => {
+                        let err = Error::UnexpectedMappingEnd {
+                            location: *location,
+                        };
+                        if !self.src.skip_to_next_document() {
+                            self.finished = true;
+                        }
+                        return Some(Err(err));
                     }
                     Ok(Some(_)) => {
                         let res = crate::anchor_store::with_document_scope(|| {
